@@ -215,16 +215,23 @@ fn message_type_try_read() {
     let mut r = SliceReader::from(&buf[..2 + extra]);
     let res = MessageType::try_read(&mut r);
     match rfc_message_type(x) {
-        Some(t) => {
-            assert!(res == Ok(t));
-            // encode gives the same number back
-            let mut w = VecWriter::new();
-            super::WritableAVP::write(&t, &mut w);
-            assert!(w.data.len() == 4 && w.data[0] == 0 && w.data[1] == 0 && w.data[2] == b[0] && w.data[3] == b[1]);
-        }
+        Some(t) => assert!(res == Ok(t)),
         None => assert!(res == Err(DecodeError::UnknownMessageType(x))),
     }
     assert!(r.len() == extra);
+    kani::cover!(true);
+}
+// MessageType encoder: every named value (reached through its RFC number) encodes to attribute type 0 + that number
+#[kani::proof]
+fn message_type_write() {
+    let x: u16 = kani::any();
+    let b = x.to_be_bytes();
+    if let Some(t) = rfc_message_type(x) {
+        let mut w = VecWriter::new();
+        super::WritableAVP::write(&t, &mut w);
+        assert!(w.data.len() == 4 && w.data[0] == 0 && w.data[1] == 0 && w.data[2] == b[0] && w.data[3] == b[1]);
+        assert!(super::QueryableAVP::get_length(&t) == 2);
+    }
     kani::cover!(true);
 }
 #[kani::proof]
@@ -337,31 +344,35 @@ fn slice_reader_ints() {
     }
     kani::cover!(true);
 }
-#[kani::proof]
-#[kani::unwind(10)]
-fn vec_writer_ints() {
-    let pre: [u8; 3] = kani::any();
-    let k: usize = kani::any();
-    kani::assume(k <= 3);
-    let mut w = VecWriter::new();
-    assert!(w.data.len() == 0 && w.is_empty());
-    w.write_bytes(&pre[..k]);
-    let (a, b, c): (u16, u32, u64) = (kani::any(), kani::any(), kani::any());
-    w.write_u16_be(a);
-    w.write_u32_be(b);
-    w.write_u64_be(c);
-    assert!(w.data.len() == k + 14);
-    let d = &w.data;
-    assert!(d[k] as u16 * 256 + d[k + 1] as u16 == a);
-    assert!(((d[k + 2] as u32 * 256 + d[k + 3] as u32) * 256 + d[k + 4] as u32) * 256 + d[k + 5] as u32 == b);
-    let mut e: u64 = 0;
-    let mut i = 0;
-    while i < 8 { e = e * 256 + d[k + 6 + i] as u64; i += 1; }
-    assert!(e == c);
-    let mut j = 0;
-    while j < k { assert!(d[j] == pre[j]); j += 1; }
-    kani::cover!(true);
+macro_rules! vec_writer_int_harness {
+    ($name:ident, $ty:ty, $method:ident, $n:expr) => {
+        #[kani::proof]
+        #[kani::unwind(10)]
+        fn $name() {
+            let pre: [u8; 3] = kani::any();
+            let k: usize = kani::any();
+            kani::assume(k <= 3);
+            let mut w = VecWriter::new();
+            assert!(w.data.len() == 0 && w.is_empty());
+            w.write_bytes(&pre[..k]);
+            let a: $ty = kani::any();
+            w.$method(a);
+            assert!(w.data.len() == k + $n && w.len() == k + $n && !w.is_empty());
+            let d = &w.data;
+            let mut e: u64 = 0;
+            let mut i = 0;
+            while i < $n { e = e * 256 + d[k + i] as u64; i += 1; }
+            assert!(e == a as u64);
+            let mut j = 0;
+            while j < k { assert!(d[j] == pre[j]); j += 1; }
+            kani::cover!(true);
+        }
+    };
 }
+vec_writer_int_harness!(vec_writer_u8, u8, write_u8, 1);
+vec_writer_int_harness!(vec_writer_u16, u16, write_u16_be, 2);
+vec_writer_int_harness!(vec_writer_u32, u32, write_u32_be, 4);
+vec_writer_int_harness!(vec_writer_u64, u64, write_u64_be, 8);
 #[kani::proof]
 #[kani::unwind(18)]
 fn vec_writer_write_bytes_at() {
